@@ -374,3 +374,31 @@ Qed.
 Theorem limit_negative_deletes_all (N : Z) ls :
   (N < 0)%Z -> limit_lines (LimitEmptyLines_init N) ls = map (fun _ => ([], [])) ls.
 Proof. intros H. apply limit_negative_gen; cbn; lia. Qed.
+
+(* the translated limiter does exactly what limit_spec says: in particular it keeps the first N empty lines of every run
+   (a limiter that elided every empty line would satisfy the bound but not this) *)
+Lemma limit_lines_exact_gen ls : forall s,
+    (0 <= LimitEmptyLines_max_empty_lines s)%Z ->
+    limit_lines s ls = limit_spec (LimitEmptyLines_max_empty_lines s) (LimitEmptyLines_empty_line_count s) ls.
+Proof.
+  induction ls as [|l ls IH]; intros s HN; [reflexivity|].
+  cbn [limit_lines limit_spec]. unfold LimitEmptyLines_call. rewrite length_zero_iff.
+  destruct s as [N cnt]; cbn [LimitEmptyLines_max_empty_lines LimitEmptyLines_empty_line_count] in *.
+  destruct (fst l) as [|x content] eqn:E.
+  - destruct (Z.gtb_spec (cnt + 1) N) as [Hgt|Hle].
+    + replace (cnt + 1 <=? N)%Z with false by (symmetry; apply Z.leb_gt; lia).
+      rewrite (IH {| LimitEmptyLines_max_empty_lines := N; LimitEmptyLines_empty_line_count := cnt + 1 |}) by (cbn; lia). reflexivity.
+    + replace (cnt + 1 <=? N)%Z with true by (symmetry; apply Z.leb_le; lia).
+      rewrite (IH {| LimitEmptyLines_max_empty_lines := N; LimitEmptyLines_empty_line_count := cnt + 1 |}) by (cbn; lia). reflexivity.
+  - destruct (Z.gtb_spec 0 N); [lia|].
+    rewrite (IH {| LimitEmptyLines_max_empty_lines := N; LimitEmptyLines_empty_line_count := 0 |}) by (cbn; lia). reflexivity.
+Qed.
+
+Theorem limit_lines_exact (N : Z) (ls : list line) :
+  (0 <= N)%Z -> limit_lines (LimitEmptyLines_init N) ls = limit_spec N 0 ls.
+Proof. intros HN. apply (limit_lines_exact_gen ls (LimitEmptyLines_init N)). exact HN. Qed.
+
+Example limit_spec_keeps_first_n :
+  limit_spec 2 0 [([97], [10]); ([], [10]); ([], [10]); ([], [10]); ([], [10]); ([98], [10])]
+  = [([97], [10]); ([], [10]); ([], [10]); ([], []); ([], []); ([98], [10])].
+Proof. reflexivity. Qed.
